@@ -197,8 +197,9 @@ def snapshot(root, skip_name_of_inner=False):
                     if v is None:
                         d[k] = "UNSET-LAZY"; continue
                     try:
-                        n = o._geometry.par_dim
-                        vv = np.asarray(v, dtype=float)
+                        sp = vars(o).get("_sqrtprec")
+                        n = sp.shape[0] if hasattr(sp, "shape") and len(getattr(sp, "shape", ())) == 2 else o._geometry.par_dim
+                        vv = np.asarray(v.todense() if hasattr(v, "todense") else v, dtype=float)
                         if vv.size == 1:
                             vv = float(vv.ravel()[0]) * np.eye(n)
                         elif vv.ndim == 1:
@@ -1663,7 +1664,7 @@ def run(ctx):
     tracer = Tracer(cuqi)
     tracer.install()
     try:
-        n = 150 if not thorough else 150 * ctx.scale
+        n = 120 if not thorough else 120 * ctx.scale
         sc = 1 if not thorough else ctx.scale
         run_programs(ctx, cuqi, tracer, n, thorough, n_step=30 * sc, n_rejoin=20 * sc, n_dense=20 * sc, n_inter=20 * sc)
         sampler_scenarios(ctx, cuqi, tracer, thorough)
